@@ -31,6 +31,10 @@ PLANS = {
              quick=[dict(mode="pbt", cases=1200, shards=8)],
              thorough=[dict(mode="pbt", cases=25000, shards=16)],
              assumptions=ASSUME + ["the norm estimator inside the library draws from a thread-local GSL RNG, so band selection near a threshold depends on process history; accuracy must hold for whichever band is chosen"]),
+    "C11": P("c11_filters.cpp",
+             quick=[dict(mode="pbt", cases=5000, shards=4)],
+             thorough=[dict(mode="pbt", cases=125000, shards=16)],
+             assumptions=ASSUME + ["avr vectors have at least d(d-1)/2 entries (documented precondition)", "a pair whose reference phase/frequency lies within the rounding slack of a threshold may take either branch"]),
     "C12": P("c12_eigen.cpp",
              quick=[dict(mode="pbt", cases=5000, shards=4)],
              thorough=[dict(mode="pbt", cases=125000, shards=16)],
